@@ -432,7 +432,7 @@ pub fn check(ctx: &Ctx) -> Check {
         Box::new(RandomPart {
             name: "lib-roundtrip",
             rule: "shapes with 1..6 axes (<=600 cells; one case in seven has 255..12000 cells with sizes around powers of two) x f64 zoo (+-0, subnormals, 1e300, negatives, NaN payloads, +-inf) x precision 0..17 x {text, npy}: write::Builder -> file -> read::Builder with auto-detected format; npy bit-identical, text within half a unit of the p-th decimal (+1 ulp) for finite values, non-finite values must not make the read fail; non-trivial = (>=2 axes or a special value) and (npy or a value whose p-decimal rounding is not the identity)",
-            cases: ctx.tier.pick(12_000, 150_000),
+            cases: ctx.tier.pick(12_000, 400_000),
             strategy: Box::new(|| lib_strategy().boxed()),
             eval: Box::new(eval_lib),
         }),
